@@ -196,8 +196,8 @@ def _case_compound(case, part):
     nat = R.n_atoms(ast)
     try:
         u = Unit(text, registry=reg)
-    except UnitParseError as e:
-        out.append((f"C02:compound-rejected", {"expr": text, "error": str(e)[:200]}))
+    except Exception as e:
+        out.append((f"C02:compound-rejected:{type(e).__name__}", {"expr": text, "error": str(e)[:200]}))
         return out
     s, d, o = _facts(u)
     shape = tuple(sorted((T.dim_name(R.atom(a)[1]) if a not in extra else "custom") for a in G.atoms_of(ast)))
@@ -264,7 +264,7 @@ def compound_case(draw):
 def part_compounds(payload):
     known = core.Known("C02")
     part = core.Part()
-    core.hyp_explore(part, known, compound_case(), _case_compound, payload["n"], payload["seed"], label="compound")
+    core.hyp_explore(part, known, compound_case(), _case_compound, payload["n"], payload["seed"], label="C02:compound")
     return part
 
 
